@@ -20,6 +20,7 @@
 #include <unordered_map>
 #include <algorithm>
 #include <cstdint>
+#include <pthread.h>
 
 extern "C" void __real_condition_variable_wait(struct condition_variable*, struct lock*);
 static jmp_buf jb;
@@ -31,6 +32,19 @@ __wrap_condition_variable_wait(struct condition_variable* cv, struct lock* l)
     blocked = 1;
     lock_release(l);
     longjmp(jb, 1);
+}
+
+// This harness is single-threaded: a channel lock that is still held when the next call wants it was left behind by an
+// earlier call (an early return that skips lock_release). The real program would block for ever there; the harness says so
+// and dies with SIGABRT, which the checks report as a crash of the code under test.
+extern "C" void
+__wrap_lock_acquire(struct lock* l)
+{
+    if (pthread_mutex_trylock(&l->inner_) != 0) {
+        printf("{\"note\":\"lock_acquire would block for ever: the lock was left held by an earlier call (single-threaded harness)\"}\n");
+        fflush(stdout);
+        abort();
+    }
 }
 
 #define MAXR 8
